@@ -125,3 +125,9 @@ def campaign(col, tier, seed, shard, nshards):
     col.exhaustive["single_run_attribute_dicts"] = tier == "thorough"
     n = 6000 if tier == "quick" else 200000
     hyp_campaign(col, strategy(), run_case, max(n // nshards, 100), seed * 100 + shard)
+    if tier == "thorough":
+        import sys as _sys
+
+        from ..common import fuzz_stage
+
+        fuzz_stage(col, _sys.modules[__name__], 100000 // nshards, seed * 100 + shard)
